@@ -1,0 +1,41 @@
+package blockchain
+
+import (
+	"bytes"
+	"fmt"
+
+	"github.com/tendermint/tendermint/types"
+)
+
+// VerifySeenCommit verifies a commit that is about to be stored as the seen
+// commit of the block it commits.
+//
+// Block sync admits block H on the strength of block H+1's LastCommit and then
+// stores that commit as the seen commit of H. Consensus later rebuilds its
+// LastCommit vote set from the stored commit (reconstructLastCommit ->
+// types.CommitToVoteSet), which panics unless EVERY included signature is
+// valid and carries the address of the validator at its index.
+// ValidatorSet.VerifyCommitLight returns as soon as +2/3 of the voting power
+// has been verified and never looks at nil votes, so a peer could append
+// garbage signatures behind a valid quorum and crash the node when it switches
+// to consensus (or when it is restarted during the sync).
+//
+// VerifySeenCommit therefore checks all signatures (ValidatorSet.VerifyCommit)
+// and, in addition, the validator address of every included signature.
+func VerifySeenCommit(chainID string, vals *types.ValidatorSet, blockID types.BlockID,
+	height int64, commit *types.Commit) error {
+
+	if err := vals.VerifyCommit(chainID, blockID, height, commit); err != nil {
+		return err
+	}
+	for idx, commitSig := range commit.Signatures {
+		if commitSig.Absent() {
+			continue
+		}
+		if addr, _ := vals.GetByIndex(int32(idx)); !bytes.Equal(addr, commitSig.ValidatorAddress) {
+			return fmt.Errorf("wrong validator address in commit signature #%d: got %X, want %X",
+				idx, commitSig.ValidatorAddress, addr)
+		}
+	}
+	return nil
+}
